@@ -1,7 +1,8 @@
 ----------------------------- MODULE Trace_Collect -----------------------------
 EXTENDS CollectContract
 VARIABLES l, ok
-EvOK(e) == IF e.ev = "check" THEN CheckOK(e) ELSE IF e.ev = "scan" THEN ScanOK(e) ELSE TRUE
+EvOK(e) == IF e.ev = "check" THEN CheckOK(e) ELSE IF e.ev = "scan" THEN ScanOK(e)
+           ELSE IF e.ev = "selfscan" THEN SelfScanOK(e) ELSE TRUE
 T == INSTANCE TraceStateless WITH EventOK <- EvOK
 Spec == T!TSSpec
 Accepted == T!TSAccepted
